@@ -249,6 +249,9 @@ def run_case(case, seed):
                 if vals.ndim != 1 or Vd.shape != (n, vals.shape[0]) or not (1 <= vals.shape[0] <= min(m, n)):
                     bad("eigs-shape", {"values": list(vals.shape), "vectors": list(Vd.shape)})
                     continue
+                if not (np.all(np.isfinite(vals)) and np.all(np.isfinite(Vd))):  # NaN compares False with every threshold below
+                    bad("eigs-nonfinite", {})
+                    continue
                 if np.any(np.diff(vals.real) < -1e-10 * normA):
                     bad("ritz-values-not-ascending", {"values": short(vals)})
                 if np.max(np.abs(Vd.conj().T @ Vd - np.eye(vals.shape[0]))) > 1e-8:
